@@ -616,6 +616,14 @@ def handle (ts : List String) : String :=
     | some (routed, outs, drained) =>
       encBool (outs.all (fun o => o.isPrefixOf routed) && (!drained || outs.getLast? == some routed || (outs.isEmpty && routed.isEmpty)))
     | none => "bad-op"
+  | "spec" :: "c14nested" :: rest =>
+    match runP (do
+        let hs ← pList pNat
+        let asg ← pList (do let o ← pValue; let n ← pValue; pure (o, n))
+        let calls ← pList (do let h ← pNat; let o ← pValue; let n ← pValue; pure (h, o, n))
+        pure (hs, asg, calls)) rest with
+    | some (hs, asg, calls) => encBool (Spec.Dev.nestedHolds hs asg calls)
+    | none => "bad-op"
   | "wait" :: "union" :: rest =>
     -- concurrent waits are independent: the getProperties sent are the merge of what each wait sends on its own
     match runP (do let cs ← pList pWaitCfg; let b ← pList pBatch; let h ← pNat; pure (cs, b, h)) rest with
